@@ -121,6 +121,15 @@ let pid_allocs (id : string) (ser : string) (cr : string) (k : int) : (int * int
 let pid_case (line : string) : string =
   match words line with
   | ["seq"; id; ser; cr; k] -> summarize (pid_allocs id ser cr (int_of_string k)) true
+  | "mix" :: id :: ser :: cr :: ops ->
+      (* set_creation stores the creation and nothing else *)
+      let st = ref { next_id = n_of_dec id; next_serial = n_of_dec ser; creation = n_of_dec cr } in
+      let out = ref [] in
+      List.iter (fun op ->
+        if String.length op > 0 && op.[0] = 'c' then st := { !st with creation = n_of_dec (String.sub op 1 (String.length op - 1)) }
+        else (let (p, st') = allocate !st in st := st';
+              out := Printf.sprintf "%d.%d.%d" (int_of_n p.p_id) (int_of_n p.p_serial) (int_of_n p.p_creation) :: !out)) ops;
+      String.concat " " (List.rev !out)
   | ["par"; th; per; id; ser; cr] -> summarize (pid_allocs id ser cr (int_of_string th * int_of_string per)) false
   | ["ref"; k] ->
       let c = ref N0 in
